@@ -57,8 +57,8 @@ def gen_doc(rng, hostile_values=0.15, comments=False):
         if r < 0.9:
             import uuid
             # any 128 bit number is an id the library accepts (no RFC 4122 variant / version bits), also hand-written ones
-            return rng.choice([str(uuid.UUID(int=rng.getrandbits(128))), "12345678-1234-5678-1234-567812345678",
-                               "00000000-0000-0000-0000-%012d" % rng.randrange(10 ** 6)])
+            return rng.choice([str(uuid.UUID(int=rng.getrandbits(128))), "12345678-1234-5678-1234-%012d" % rng.randrange(10 ** 12),
+                               "00000000-0000-0000-0000-%012d" % rng.randrange(10 ** 12)])
         return rng.choice(["123", "not-an-id", "", "zz-11"]) or None
 
     def vtext(dtype):
